@@ -2,7 +2,7 @@ SPECIFICATION Spec
 CONSTANTS
   Trees <- TreesT
   Events <- EventsT
-  MaxLen = 4
+  MaxLen = 3
   MaxRuns = 1
   Export = TRUE
   Variant = "asRequired"
